@@ -115,11 +115,12 @@ def execute(case):
     aliases = [c[2] for c in cols]
     alln = [_all_names_spec(n, a) for n, a in zip(names, aliases)]
     alln_lower = [[x.lower() for x in l] for l in alln]
+    alln_fold = [[x.casefold() for x in l] for l in alln]
     regs = [RelationSchema(name=s[0], aliases=list(s[1]), columns=[objs[i] for i in s[2]]) for s in case["schemas"]]
     meta = [(s[0], list(s[1])) for s in case["schemas"]]
     state = [list(s[2]) for s in case["schemas"]]
     outs = []
-    res = {"outs": outs, "final": None, "clause": None, "at": None, "idents": idents}
+    res = {"outs": outs, "final": None, "clause": None, "at": None, "idents": idents, "num_columns": None}
 
     def tags(schema):
         return [tag_of.get(id(c), -1) for c in schema.columns]
@@ -130,17 +131,26 @@ def execute(case):
         res["at"] = n
         return res
 
-    def first_bearing(P, key, ci):
+    def first_bearing(P, key, ci, fold=False):
         if ci:
-            kl = key.lower()
+            kl = key.casefold() if fold else key.lower()
             for t in P:
-                if kl in alln_lower[t]:
+                if kl in (alln_fold if fold else alln_lower)[t]:
                     return t
         else:
             for t in P:
                 if key in alln[t]:
                     return t
         return None
+
+    def bearing_ok(t, P, key, ci):
+        """"ignoring case": the code (and the model) normalise with str.lower; Unicode case folding identifies a few
+        more strings ('ß'/'SS', 'ς'/'σ').  The statement does not choose, so where the two readings differ the
+        oracle accepts either answer (the correspondence with the model still pins str.lower)."""
+        want = first_bearing(P, key, ci)
+        if t == want:
+            return True
+        return bool(ci) and t == first_bearing(P, key, ci, fold=True)
 
     for n, op in enumerate(case["prog"]):
         kind = op[0]
@@ -196,6 +206,9 @@ def execute(case):
                     got = sch.all_column_names()
                 elif kind == "names":
                     got = sch.column_names
+                    nc = sch.num_columns
+                    if nc != len(sch.columns) and res.get("num_columns") is None:
+                        res["num_columns"] = [n, nc, len(sch.columns)]
                 elif kind == "iter":
                     got = [x for x in sch]
                 else:
@@ -246,7 +259,7 @@ def execute(case):
                 if Q != P:
                     return fail(n, "a lookup changed the schema's columns")
                 if kind == "find":
-                    if t is IndexError or t != first_bearing(P, op[2], op[3]):
+                    if t is IndexError or not bearing_ok(t, P, op[2], op[3]):
                         return fail(n, "lookup did not return the first column bearing the key (None when none does)")
                 elif kind == "col":
                     k = op[2]
@@ -424,9 +437,54 @@ def _norm(clause):
     return None if clause is None else "".join(ch for ch in clause if not ch.isdigit())
 
 
+def _ci_class(key, names):
+    """how `str.lower` (what the code uses) relates to Unicode case folding for this key and these names"""
+    kl, kf = key.lower(), key.casefold()
+    out = []
+    if not key.isascii():
+        out.append("key-non-ascii")
+    if len(kl) != len(key):
+        out.append("lower-changes-length")
+    if kl != kf:
+        out.append("lower!=casefold")
+    if any(kf == x.casefold() and kl != x.lower() for x in names):
+        out.append("casefold-equal-but-lower-distinct")
+    if any(kl == x.lower() and key != x for x in names):
+        out.append("matches-only-ignoring-case")
+    return out
+
+
 def _hits(ctx, c):
+    nbase = len(c["schemas"])
+    alln = None
     for op in c["prog"]:
         k = op[0]
+        if k == "add" and op[1] < nbase and op[2] < nbase:
+            A, B = c["schemas"][op[1]][2], c["schemas"][op[2]][2]
+            ida, idb = [c["cols"][t][0] for t in A], [c["cols"][t][0] for t in B]
+            if None not in ida and None not in idb:
+                if len(set(ida)) < len(ida):
+                    ctx.hit("add:left-repeats-an-identity")
+                if len(set(idb)) < len(idb):
+                    ctx.hit("add:right-repeats-an-identity")
+                if set(A) & set(B):
+                    ctx.hit("add:operands-share-a-column-object")
+                if any(i in ida for t, i in zip(B, idb) if t not in A):
+                    ctx.hit("add:same-identity-different-object")
+                na, ia = {c["cols"][t][1] for t in A}, set(ida)
+                if any(c["cols"][t][1] in na and i not in ia for t, i in zip(B, idb)):
+                    ctx.hit("add:same-name-different-identity")
+                if not A:
+                    ctx.hit("add:empty-left")
+                if not B:
+                    ctx.hit("add:empty-right")
+                if op[1] == op[2]:
+                    ctx.hit("add:schema-plus-itself")
+        if k == "find" and op[3] and not op[2].isascii():
+            if alln is None:
+                alln = [x for col in c["cols"] for x in ([col[1]] + list(col[2] or []))]
+            for cl in _ci_class(op[2], alln):
+                ctx.hit("ci:" + cl)
         if k == "col":
             k = "col:" + ("name" if isinstance(op[2], str) else "bool" if isinstance(op[2], bool) else "index")
         elif k == "find":
@@ -498,6 +556,9 @@ def evaluate(ctx, cases, stats=True):
             ctx.fail(c_min, r2["clause"] or clause, impl={"outs": r2["outs"], "failed_at_op": r2["at"]}, model=mo2)
         elif m[0] != r["outs"] or m[1] != r["final"]:
             ctx.disagree(c, {"outs": r["outs"], "regs": r["final"]}, {"outs": m[0], "regs": m[1]})
+        elif r.get("num_columns") is not None:
+            # not in the statement; `Gen.SchemaFns.num_columns` is proved to be the number of columns
+            ctx.disagree(c, {"num_columns": r["num_columns"][1], "at_op": r["num_columns"][0]}, {"num_columns": r["num_columns"][2]})
 
 
 def evaluate_all(ctx, gen, batch=4000, stats=True):
@@ -647,6 +708,28 @@ def gen_union_pairs(nid, nnames, amax, bmax, chain=False):
                     yield {"cols": table, "schemas": [["L", [], list(a)], ["M", ["m"], list(b)], ["R", [], list(c)]], "prog": prog}
 
 
+def gen_frame_interleavings(depth):
+    """Non-mutation as a frame property: from every starting point build a+b, b+a and the sum of those sums, then
+    every sequence of <= depth removals addressed to any of the five schemas, a lookup on every schema after each
+    removal and the names of all five at the end (the oracle checks after *every* operation that no schema but the
+    addressed one moved; the model must agree on every answer)."""
+    for st in HISTORY_STARTS:
+        pre = [["add", 0, 1], ["add", 1, 0], ["add", 2, 3]]
+        alpha = [["pop", r, k] for r in range(5) for k in ("a", "b")]
+        for d in range(depth + 1):
+            for path in itertools.product(alpha, repeat=d):
+                prog = [list(p) for p in pre]
+                for op in path:
+                    prog.append(list(op))
+                    for r in range(5):
+                        prog.append(["find", r, op[2], False])
+                for r in range(5):
+                    prog.append(["names", r])
+                prog.append(["add", 4, 0])
+                prog.append(["allnames", 5])
+                yield {"cols": st["cols"], "schemas": st["schemas"], "prog": prog}
+
+
 UNI = ["a", "A", "b", "B", "ab", "aB", "Ab", "é", "É", "ß", "ẞ", "SS", "ss", "İ", "i̇", "i", "I", "ı", "Σ", "σ", "ς",
        "ΑΣ", "ας", "ασ", "ǅ", "ǆ", "Ǆ", "日本", "", " ", "a ", "K", "k", "ﬁ", "FI", "fi", "\U0001f600", "name", "Name", "NAME"]
 
@@ -755,6 +838,65 @@ def check_identity_format(ctx):
     ctx.hit("default-identities-distinct:%s" % (len(seen) == 300))
 
 
+# ----------------------------------------------------------------------------- foreign right operands
+
+
+class _Duck:
+    """not a RelationSchema, but it has a list of columns"""
+
+    def __init__(self, columns):
+        self.columns = columns
+        self.name = "duck"
+        self.aliases = ["quack"]
+
+
+def check_foreign_operands(ctx):
+    """`schema + x` for an x that is not a schema.  The statement quantifies over pairs of schemas, so what the sum
+    *is* here is not demanded (today: AttributeError for anything without `.columns`, the union for anything with
+    one); what is demanded is the part of the statement that does not depend on the right operand being a schema:
+    the left operand is not modified, whether the sum raises or not, and a right operand that has a column list
+    keeps it."""
+    o = _orso()
+    cols = [o["flat"](name=n, identity=i, aliases=a) for n, i, a in (("a", "i0", ["b"]), ("b", "i1", None), ("a", "i0", []))]
+    lefts = [[], [0], [0, 1], [0, 2, 1]]
+    rights = [("None", lambda: None), ("int", lambda: 5), ("str", lambda: "ab"), ("list-of-columns", lambda: [cols[1]]),
+              ("dict", lambda: {"columns": [cols[1]]}), ("tuple", lambda: ()), ("object", lambda: object()),
+              ("duck-with-columns", lambda: _Duck([cols[1], cols[1], cols[2]])), ("duck-empty", lambda: _Duck([])),
+              ("column", lambda: cols[0])]
+    for sel in lefts:
+        for label, mk in rights:
+            a = o["schema"](name="L", aliases=["l"], columns=[cols[i] for i in sel])
+            la = a.columns
+            x = mk()
+            xcols = x.columns if isinstance(x, _Duck) else None
+            xbefore = list(xcols) if xcols is not None else None
+            case = {"foreign_right": label, "left": list(sel)}
+            try:
+                r = a + x
+                outcome = "returned:" + type(r).__name__
+            except Exception as e:  # noqa: BLE001 - any exception is an acceptable refusal
+                r = None
+                outcome = "raised:" + type(e).__name__
+            ctx.case(case, bool(sel))
+            ctx.hit("foreign-right:%s:%s" % (label, outcome))
+            if a.columns is not la or [id(c) for c in a.columns] != [id(cols[i]) for i in sel] or a.name != "L" or a.aliases != ["l"]:
+                ctx.fail(case, "the sum with a right operand that is not a schema modified the left operand", impl={"outcome": outcome, "left_after": [c.name for c in a.columns]}, model=None)
+                return
+            if xcols is not None and (x.columns is not xcols or [id(c) for c in xcols] != [id(c) for c in xbefore]):
+                ctx.fail(case, "the sum modified the column list of a right operand that is not a schema", impl={"outcome": outcome, "right": "changed"}, model=None)
+                return
+            if isinstance(x, _Duck) and isinstance(r, o["schema"]):
+                # a right operand with a column list: the union, by the same rule
+                tag = {id(c): t for t, c in enumerate(cols)}
+                got = [tag.get(id(c), -1) for c in r.columns]
+                B = [tag[id(c)] for c in xbefore]
+                want = spec_union(list(sel), B, [c.identity for c in cols])
+                if got != want or r.columns is la or r.name != "L" or list(r.aliases) != ["l"]:
+                    ctx.fail(case, "the sum with a right operand that only has a column list is not the union by the same rule",
+                             impl={"columns": got, "name": r.name}, model={"columns": want, "name": "L"})
+                    return
+
+
 # ----------------------------------------------------------------------------- entry points
 
 
@@ -790,7 +932,20 @@ def run(ctx):
             list.append(self, text)
 
     scopes = Scopes()
+    try:
+        import json
+        import os
+
+        from ..extract import GEN_DIR
+
+        differs = json.load(open(os.path.join(GEN_DIR, "generated.json"))).get("schema.fn.differs_from_model") or {}
+        if differs:
+            # the extractor ran the changed translation against the model on the small scope (Lemmas/SchemaBattery.lean)
+            ctx.note("translated_function_differs_from_model", differs)
+    except Exception:
+        pass
     check_identity_format(ctx)
+    check_foreign_operands(ctx)
     corpus = load_corpus()
     evaluate(ctx, corpus)
     ctx.hit("corpus", len(corpus))
@@ -809,6 +964,9 @@ def run(ctx):
     n = evaluate_all(ctx, gen_histories(range(1, 4), HISTORY_STARTS))
     scopes.append("every history of depth <=3 over %d operations (find, find-ci, column, pop, all names, names, iteration, union, "
                   "operations on the sum) from %d two-schema starting points: %d histories" % (len(history_alphabet()), len(HISTORY_STARTS), n))
+    n = evaluate_all(ctx, gen_frame_interleavings(2 if q else 3))
+    scopes.append("frame: from each of the %d starting points a+b, b+a and the sum of the two sums, then every sequence of <=%d removals "
+                  "addressed to any of the five schemas with a lookup on every schema after each: %d programs" % (len(HISTORY_STARTS), 2 if q else 3, n))
     if not q:
         n = evaluate_all(ctx, gen_lookup_exhaustive(4, ALIASES3))
         scopes.append("every schema of <=4 columns over names {a,A,b} x aliases %r x every lookup: %d schemas" % (ALIASES3, n))
@@ -827,6 +985,9 @@ def intensify(ctx):
 def replay(ctx, case):
     if "random_string" in case or "default_identity" in case:
         check_identity_format(ctx)
+        return
+    if "foreign_right" in case:
+        check_foreign_operands(ctx)
         return
     if not valid_case(case):
         raise InfraError("not a C17 case: %r" % (case,))
